@@ -1,3 +1,4 @@
+import GPy.C10.Gen
 import GPy.C17.Gen
 import GPy.C11.Gen
 import GPy.C18.Gen
@@ -43,6 +44,7 @@ def main (args : List String) : IO UInt32 := do
     | "C18" => GPy.C18.genMain tier seed; return 0
     | "C11" => GPy.C11.genMain tier seed; return 0
     | "C17" => GPy.C17.genMain tier seed; return 0
+    | "C10" => GPy.C10.genMain tier seed; return 0
     | _ => IO.eprintln s!"unknown property {prop}"; return 2
   | ["C12verify"] => GPy.C12.verifyMain; return 0
   | _ => IO.eprintln "usage: gpymodel <Cxx> <quick|thorough> <seed>"; return 2
